@@ -36,6 +36,7 @@ THEOREMS = [
     "cov_follows", "longest_axis_follows_partial",
     "cov_positive_semidefinite", "cov_eigenvalues_nonneg", "selected_column_is_top", "selected_column_sorted", "selection_max_or_tie",
     "longest_axis_follows", "boxCloud_eigOut", "eigOut_of_orthonormal", "longest_axis_follows_orthonormal",
+    "strict_max_follows", "longest_axis_follows_final",
     "rotation_matrix_is_rot", "reflection_matrix_is_refl", "closed_antisym_sum_zero",
 ]
 GEN = ["Geometry", "GateConsts"]      # GateConsts: which tests initialize_cell_properties(true) contains (hypotheses of orient_consistent)
